@@ -9,13 +9,15 @@ from .. import canon, gen
 from ..core import call_real, LEAN, REPO
 
 ID = "C02"
-LEAN_MODULE = "CKT.Props.C02"
+LEAN_MODULE = "CKT.Props.C02Names"
 FAMS = ["rxx", "ryy", "rzz", "crx", "cry", "crz", "cp"]
 FIXED = ["cs", "csdg", "csx", "csxdg", "cx", "cy", "cz", "ch", "ecr", "swap", "iswap", "dcx", "move"]
 THEOREMS = (["CKT.C02.check_" + n for n in FAMS + FIXED + ["kak"]]
             + ["CKT.C02.exact_" + n for n in FAMS + FIXED + ["kak"]]
             + ["CKT.C02.checkBasis_sound'", "CKT.C02.sat_angle", "CKT.C02.sat_u", "CKT.C02.dressing",
-               "CKT.C02.unsupported_refused", "CKT.C02.kak_coeffs_local_invariant"])
+               "CKT.C02.unsupported_refused", "CKT.C02.kak_coeffs_local_invariant",
+               # the registry of the source (translated on every run: Generated/Names.lean) is the model's table of supported names
+               "CKT.C02.registered_supported", "CKT.C02.supported_registered", "CKT.C02.registered_nodup", "CKT.C02.registered_exact"])
 RULE = ("all 20 explicitly supported names (parametrised ones at special angles 0, +-pi, 2pi k, |theta|>4pi, 1e-9 and random angles in "
         "[-8pi, 8pi]) plus the KAK path (rzx, xx+-yy, open-control variants of the controlled gates, Haar-random and Weyl-corner unitaries with random local dressing) and refused "
         "instructions; compared per map and side: operation names, each operation's transfer matrix (1e-9), coefficients, kappa, the "
@@ -31,8 +33,9 @@ SC = 1e13
 
 
 def regenerate():
-    from ..translate import kak
+    from ..translate import kak, names
     kak.regenerate(REPO, LEAN)
+    names.regenerate(REPO, LEAN)
 
 
 def _theta_prime(name, theta):
